@@ -3,7 +3,7 @@ import re
 from rn import cfg, util
 from rn.flow import Taint, field_place_src
 from rn.facts import rv_operands
-from rn.absint import Interp, BV, Adt, Ref, SymObj, Env, Undecided, Unsupported, Panic
+from rn.absint import Interp, BV, Adt, Ref, SymObj, Env, Opaque, Undecided, Unsupported, Panic
 from . import c07
 
 SU = 'rnacos::common::sequence_utils::SimpleSequence::'
@@ -28,6 +28,7 @@ def run(ck, fb):
     r19b(ck, fb)
     r19c(ck, fb)
     r19d(ck, fb)
+    r19e(ck, fb)
 
 
 def r19a(ck, fb):
@@ -149,17 +150,6 @@ def r19c(ck, fb):
                 rv = st['rv']
                 t = Taint(h, call_src=lambda t, fn=fn: (t.get('f') or {}).get('d', '').endswith('SequenceDbManager::' + fn))
                 ck.require(t.op_tainted(rv['ops'][rv['fields'].index(fld)]), 'R19c', '%s<-%s' % (variant, fn), h.where(i), '%s is not the value returned by %s' % (variant, fn))
-    for fn in ('next_id', 'next_range'):
-        b = ck.body(SD + fn, 'R19c')
-        if not b:
-            continue
-        # old value read before the in-place add; returned value is the old one
-        adds = [(i, j, st) for (i, j, st) in b.stmts() if st.get('rv', {}).get('k') == 'bin' and st['rv']['op'] in ('AddWithOverflow', 'Add')]
-        gm = b.calls(r'HashMap::<K, V, S, A>::get_mut$')
-        ins = b.calls(r'HashMap::<K, V, S, A>::insert$')
-        ck.require(len(gm) == 1 and len(ins) == 1 and len(adds) >= 2, 'R19c', '%s:shape' % fn, b.where(), '%s no longer has the get_mut/insert + add shape' % fn)
-        wr = [(i, st) for (i, j, st) in b.stmts() if not isinstance(st.get('d'), int) and 'd' in st and st['d'].get('p') == ['*']]
-        ck.require(len(wr) >= 1, 'R19c', '%s:advances' % fn, b.where(), '%s does not advance the stored value' % fn)
 
 
 def _seq(last_id, batch, cache):
@@ -233,3 +223,72 @@ def r19d(ck, fb):
                 'set_valid_last_id:monotone', 'set_valid_last_id:no-change-below', 'set_last_id', 'interp'):
         ck.require(key not in bad, 'R19d', 'SimpleSequence:' + key, fns[key.split(':')[0]].where() if key.split(':')[0] in fns else '-', bad.get(key, ''), 'holds on the grid')
     ck.extra['sequence_grid_cases'] = n
+
+
+class _Cell:
+    def __init__(self, v):
+        self.locals = [v]
+        self.body = None
+
+
+class _Map:
+    """one-slot abstraction of HashMap<Arc<String>, u64>: the entry of the key the call is about"""
+    def __init__(self, present, value):
+        self.cell = _Cell(BV.const(64, value)) if present else None
+
+
+def _models(m):
+    def get_mut(i, fr, t, args):
+        if m.cell is None:
+            return Adt('std::option::Option', 'None', [])
+        return Adt('std::option::Option', 'Some', [Ref(frame=m.cell, place=0)], ['0'])
+
+    def insert(i, fr, t, args):
+        old = m.cell
+        m.cell = _Cell(args[2])
+        return Adt('std::option::Option', 'None' if old is None else 'Some', [] if old is None else [old.locals[0]], [] if old is None else ['0'])
+
+    def ident(i, fr, t, args):
+        return args[0]
+    return {'std::collections::HashMap::<K, V, S, A>::get_mut': get_mut, 'std::collections::HashMap::<K, V, S, A>::insert': insert,
+            '<std::sync::Arc<T, A> as std::clone::Clone>::clone': ident, 'std::clone::Clone::clone': ident}
+
+
+def r19e(ck, fb):
+    ck.rule('R19e', 'named sequences, by exhaustive interpretation of SequenceDbManager::next_id / next_range over (entry absent | next-free v in 1..6, '
+                    'step 1..4) with the map abstracted to the entry of the requested key: the returned start is the stored next-free value '
+                    '(1 for a new key) and the stored value becomes start + step (start + 1 for next_id): consecutive calls hand out disjoint, '
+                    'increasing ranges')
+    bad = {}
+    n = 0
+    for fn, steps in (('next_id', [None]), ('next_range', [1, 2, 3, 4])):
+        b = ck.body(SD + fn, 'R19e')
+        if not b:
+            return
+        for present, v in [(False, 0)] + [(True, x) for x in range(1, 7)]:
+            for step in steps:
+                m = _Map(present, v)
+                selfv = Adt('SequenceDbManager', 'SequenceDbManager', [m, BV.const(1, 1)], ['seq_map', 'init'])
+                cell = _Cell(selfv)
+                args = [Ref(frame=cell, place=0), Opaque('key')] + ([BV.const(64, step)] if step is not None else [])
+                try:
+                    it = Interp(fb, call_models=_models(m))
+                    # field access on the Adt returns the _Map object; refs to it are passed to the models untouched
+                    r = it.call_body(b, args, 0)
+                    n += 1
+                    if fn == 'next_range':
+                        got = r.fields[0].value() if isinstance(r, Adt) and r.variant == 'Ok' else None
+                    else:
+                        got = r.value()
+                    st = step if step is not None else 1
+                    want = v if present else 1
+                    stored = m.cell.locals[0].value() if m.cell else None
+                    if got != want:
+                        bad[fn + ':returns-next-free'] = '%s(entry=%s, step=%s) returned %s, expected %s' % (fn, v if present else 'absent', step, got, want)
+                    if stored != want + st:
+                        bad[fn + ':advances-by-step'] = '%s(entry=%s, step=%s) left %s stored, expected %s' % (fn, v if present else 'absent', step, stored, want + st)
+                except (Undecided, Unsupported, Panic) as e:
+                    bad[fn + ':interp'] = 'cannot interpret %s: %s' % (fn, e)
+    for key in ('next_id:returns-next-free', 'next_id:advances-by-step', 'next_range:returns-next-free', 'next_range:advances-by-step', 'next_id:interp', 'next_range:interp'):
+        ck.require(key not in bad, 'R19e', 'SequenceDbManager:' + key, '-', bad.get(key, ''), 'holds on the grid')
+    ck.extra['named_sequence_grid_cases'] = n
